@@ -83,7 +83,8 @@ NameChecks(r) ==
 \* apply_beamforming_vector: out[t] = sum_d conj(w_d) x[d][t]
 ApplyChecks(r) ==
   IF r.exc # "" THEN << <<"raises", FALSE>> >>
-  ELSE << <<"apply", All(r, LAMBDA it : \A t \in 1..Len(it.out) :
+  ELSE << <<"shape", r.shape = r.expect_shape>>,       \* one output sequence per leading index: (..., F, T), also for axes of length one
+          <<"apply", All(r, LAMBDA it : \A t \in 1..Len(it.out) :
                LET d == ZDotS(it.w, [j \in 1..Len(it.w) |-> it.x[j][t]])
                IN  ZClose(d[1], it.out[t], FAdd(d[2], ZAbs1(it.out[t])), SLK))>> >>
 \* phase_correction per leading index: items have w, out : F x D
